@@ -103,8 +103,30 @@ func processorPkg(p *Prog, T types.Type) (string, string) {
 	}
 	f := sel.Obj().(*types.Func)
 	recv := f.Type().(*types.Signature).Recv().Type()
+	var fwdField *types.Var
 	if _, isIface := recv.Underlying().(*types.Interface); !isIface {
-		return f.Pkg().Path(), ""
+		// a hand-written forwarder to a field holding the processor is a promotion written out
+		if fn := p.SSA.MethodValue(sel); fn != nil && isPlainForwarder(fn, "ProcessPacketData") {
+			for _, in := range fn.Blocks[0].Instrs {
+				if fa, isFA := in.(*ssa.FieldAddr); isFA && fa.X == ssa.Value(fn.Params[0]) {
+					fwdField = fieldObj(fa)
+				}
+			}
+		}
+		if fwdField == nil {
+			return f.Pkg().Path(), ""
+		}
+		if _, isI := fwdField.Type().Underlying().(*types.Interface); !isI {
+			if n, isN := fwdField.Type().(*types.Named); isN {
+				return n.Obj().Pkg().Path(), ""
+			}
+			if pt, isP := fwdField.Type().(*types.Pointer); isP {
+				if n, isN := pt.Elem().(*types.Named); isN {
+					return n.Obj().Pkg().Path(), ""
+				}
+			}
+			return f.Pkg().Path(), ""
+		}
 	}
 	// promoted through an embedded interface: find what the constructor stores there
 	pt, ok := T.(*types.Pointer)
@@ -119,6 +141,9 @@ func processorPkg(p *Prog, T types.Type) (string, string) {
 	idx := sel.Index()
 	st := named.Underlying().(*types.Struct)
 	fld := st.Field(idx[0])
+	if fwdField != nil {
+		fld = fwdField
+	}
 	var pkgs []string
 	for _, fn := range p.SrcFuncs() {
 		if fn.Pkg == nil || fn.Pkg.Pkg != named.Obj().Pkg() {
@@ -503,7 +528,7 @@ func checkFilterInstalled(p *Prog, r *Report) {
 			for _, b := range ec.Blocks {
 				for _, in := range b.Instrs {
 					if c, ok := in.(*ssa.Call); ok && IsCallTo(&c.Call, fnEngineStart) {
-						if fa, ok := c.Call.Args[1].(*ssa.FieldAddr); ok && fieldName(fa.X.Type(), fa.Field) == "scanRange" {
+						if fa, ok := methodArgs(&c.Call)[1].(*ssa.FieldAddr); ok && fieldName(fa.X.Type(), fa.Field) == "scanRange" {
 							for _, o := range p.Origins(fa.X) {
 								if _, isP := o.(*ssa.Parameter); isP {
 									okR = true
